@@ -218,6 +218,41 @@ func runOverflowShape(c *core.Case, res *core.Result, name string) *core.Result 
 			break
 		}
 	}
+	// use up the meta area as well (overwrites need write-ahead pages) until no
+	// page at all is free: the header then has no free list but a meta area.
+	// Close and reopen in that state.
+	for round := 0; round < 40; round++ {
+		s := w.F.VerifSnapshot()
+		if s.MetaAvail == 0 && s.DataAvail == 0 {
+			res.Add("states_without_any_free_page", 1)
+			if s.FreelistRoot == 0 {
+				res.Add("states_without_free_list_root", 1)
+			}
+			break
+		}
+		if !w.Begin(txfile.TxOptions{WALLimit: 1000}) {
+			return done()
+		}
+		n := int(s.MetaAvail)
+		if n > 2 {
+			n = 1 + r.Intn(n-1)
+		}
+		cw := w.candWrite()
+		for i := 0; i < n && i < len(cw); i++ {
+			if !w.Write(cw[(i*7+round)%len(cw)], 0, 0) {
+				return done()
+			}
+		}
+		if s.DataAvail > 0 && !w.Alloc(int(s.DataAvail), 1) {
+			return done()
+		}
+		if !w.End(OCommit) {
+			return done()
+		}
+	}
+	if !w.Reopen() {
+		return done()
+	}
 	for round := 0; round < 3+r.Intn(4); round++ {
 		// cleanup style transaction: frees a few pages, overwrites some, overflow area enabled
 		if !w.Begin(txfile.TxOptions{EnableOverflowArea: true, WALLimit: uint([]int{0, 3, 1000}[r.Intn(3)])}) {
